@@ -26,6 +26,7 @@ private:
   int64 mdata[3]; // sizeof(pthread_mutex_t)
   #endif
   bool signaled;
+  uint generation; // incremented by set(): a waiter that saw it change has been released, whatever reset() did since
 #endif
 
   Signal(const Signal&);
